@@ -2512,8 +2512,13 @@ class CompressedCertificate(Certificate):
 
         try:
             if self.compression_algo == CertificateCompressionAlgorithm.zlib:
-                decompressed_msg = zlib.decompress(
-                    compressed_msg, 15, expected_length)
+                # third parameter of zlib.decompress() is just the initial
+                # size of buffer, not a limit
+                decompressor = zlib.decompressobj(15)
+                decompressed_msg = decompressor.decompress(
+                    compressed_msg, max(expected_length, 1))
+                if decompressor.unconsumed_tail or not decompressor.eof:
+                    raise ValueError("Decompressed message too long")
             elif self.compression_algo == \
                     CertificateCompressionAlgorithm.brotli:
                 if compression_algo_impls["brotli_accepts_limit"]:
